@@ -41,12 +41,16 @@ def run_validate(mutate=None):
                     z3.Not(z3.And(o.screening_step_drag.e > 0, o.screening_step_drag.e <= 1)), o.screening_step_size.e <= 0, o.screening_tolerance.e <= 0)
         if not tp_none:
             bad = z3.Or(bad, tp.abs2().e > 1)
+        before = dict(vars(o))
         try:
             o.validate()
         except Err:
             check("C19.options.rejects_only_inconsistent", bad, extra=sym.congruence_axioms())
             return
         check("C19.options.accepts_only_consistent", z3.Not(bad), extra=sym.congruence_axioms())
+        # validation decides, it does not rewrite what the user asked for (the same object is reused for later runs)
+        changed = sorted(k_ for k_ in before if vars(o).get(k_) is not before[k_])
+        check("C19.options.validation_leaves_the_options_as_given", z3.BoolVal(not changed), note=str(changed))
         # an options object is validated again by every solve: the decision depends on the values it has NOW, not on an earlier success
         o.dt_init, o.dt_max = SR(R("dt_init_2")), SR(R("dt_max_2"))
         tp2 = SC(SR(R("tp2_re")), SR(R("tp2_im")))
